@@ -12,4 +12,14 @@ PROPS = {
   "level_note": "Trusted: Lean kernel; extractor; harness+driver; net/http's http.Error/Response fields; grpc status package. Modelled not verified: header transport by net/http.",
   "assumptions": ["custom error renderers are arbitrary: the theorem quantifies over every (HTTP status, status text) they may write"],
  },
+ "C09": {
+  "fact_files": ["httpgrpc/server.go", "httpgrpc/client.go"],
+  "trusted_base": ["strconv.ParseInt base-10 semantics as modelled in Prim.parseInt (validated by the correspondence run)",
+                   "context.WithTimeout / time.Time.Add (saturating) and the monotone clock used for the sandwich",
+                   "net/http delivers the GRPC-Timeout header value unchanged apart from optional-whitespace trimming"],
+  "partial": ["transit time and wall-clock drift are runtime facts: the e2e run measures them one-sidedly"],
+  "level_text": "Proof: Lean theorems over the Timeout model with Go's int64 multiply explicit (wrap64): every digit string of any length with a valid unit decodes to exactly v*unit or saturates to MaxInt64 / no deadline, never smaller or negative (C09_parse_valid); no header string can panic the parser (C09_parse_total); the client encodes max(1, d/1ms) with d-1ms < e <= d (C09_client_encoding); client->server round trip is exact (C09_client_server_roundtrip); no deadline => no header. Unit table, divisor, floor rule, ParseInt width and the presence of the saturation are regenerated from the source on every run. Tie: sandwich-checked differential run of contextFromHeaders / headersFromContext and real calls.",
+  "level_note": "Trusted: Lean kernel; extractor; harness+driver; strconv/context/time as modelled. Transit time is measured, not proved.",
+  "assumptions": ["durations are int64 nanoseconds; the clock is monotone between two readings"],
+ },
 }
